@@ -140,6 +140,19 @@ var l2CorpusPG = []corpusStmt{
 	{":exec", "UPDATE authors SET bio = sqlc.arg(b) WHERE name = sqlc.arg(n) AND (bio = sqlc.arg(b) OR id = sqlc.arg(i))", nil, nil, nil},
 	{":many", "SELECT id FROM authors WHERE name = @n::text OR (age > @m::int AND bio = @n::text) OR age < @m::int", nil, nil, nil},
 	{":many", "SELECT id FROM authors WHERE id = @c AND name = @a AND bio = @b AND age = @c AND name <> @a", nil, nil, nil},
+	// a placeholder that is a direct COALESCE argument next to constants or other placeholders
+	{":many", "SELECT id FROM authors WHERE bio = coalesce($1, 'x') AND id = $2", nil, nil, nil},
+	{":exec", "UPDATE authors SET bio = coalesce($1, 'n/a') WHERE id = $2", nil, nil, nil},
+	{":many", "SELECT id FROM authors WHERE age = coalesce($2, 0) AND name = $1", nil, nil, nil},
+	{":many", "SELECT id FROM authors WHERE bio = coalesce($1, $2) AND id = $3", nil, nil, nil},
+	{":many", "SELECT id FROM authors WHERE bio = coalesce($1, name) AND id = $2", nil, nil, nil},
+	// qualifiers written in another letter case than the (folded) identifier
+	{":many", "SELECT A.* FROM authors A", nil, nil, nil},
+	{":many", "SELECT Authors.* FROM Authors", nil, nil, nil},
+	{":many", "SELECT A.*, b.* FROM authors A JOIN books b ON b.author_id = A.id", nil, nil, nil},
+	{":many", "WITH Recent AS (SELECT id, name FROM authors) SELECT Recent.* FROM Recent", nil, nil, nil},
+	{":one", "UPDATE Authors SET name = $1 WHERE id = $2 RETURNING Authors.*", nil, nil, nil},
+	{":many", "SELECT A.Name, A.ID FROM authors A WHERE A.Bio = $1", nil, nil, nil},
 }
 
 var l2CorpusMy = []corpusStmt{
@@ -171,6 +184,8 @@ var l2CorpusMy = []corpusStmt{
 	{":many", "SELECT id, coalesce(bio, 'n/a') AS bio_text, bio FROM authors", nil, nil, nil},
 	{":exec", "INSERT INTO authors SELECT * FROM authors WHERE id = ?", nil, nil, nil},
 	{":exec", "DELETE FROM authors WHERE EXISTS (SELECT * FROM books b WHERE b.author_id = authors.id AND b.title = ?)", nil, nil, nil},
+	{":many", "SELECT id FROM authors WHERE bio = coalesce(?, 'x') AND id = ?", nil, nil, nil},
+	{":exec", "UPDATE authors SET bio = coalesce(?, 'n/a') WHERE id = ?", nil, nil, nil},
 }
 
 func l2Corpus(emitCase func(id, engine, schema string, q QStmt, has, gone [][2]string)) {
